@@ -34,7 +34,8 @@ from engine.vloop import drive
 
 PID = "C14"
 OPS = ["none", "touch", "rewrite-same-size", "rewrite-other-size", "replace-keeping-older-mtime"]
-FORMS = ["etag", "weak", "list-first", "list-last", "list-weak-last", "list-nospace", "list-space-before-comma", "star", "last-modified", "both", "both-weak-list"]
+FORMS = ["etag", "weak", "list-first", "list-last", "list-weak-last", "list-nospace", "list-space-before-comma", "list-tab-padded", "weak-tab-padded", "star", "last-modified",
+         "both", "both-weak-list"]
 
 META = {
     "functions": lambda: [WS.Files.__call__, WS.Files.file_response, WS.Pages.__call__, AS.Files.__call__, AS.Files.file_response, AS.Pages.__call__,
@@ -183,6 +184,10 @@ def validators(form: str, hdrs: Dict[str, str]) -> Dict[str, str]:
         return {"If-None-Match": other + "," + et}
     if form == "list-space-before-comma":
         return {"If-None-Match": other + " ," + et + " , " + other}
+    if form == "list-tab-padded":  # optional white space around list members is SP / HTAB (RFC 9110)
+        return {"If-None-Match": other + ",\tW/" + et + "\t, " + other}
+    if form == "weak-tab-padded":
+        return {"If-None-Match": "\tW/" + et + "\t"}
     if form == "star":
         return {"If-None-Match": "*"}
     if form == "last-modified":
@@ -236,8 +241,37 @@ def timegm_stub(st):
     return calendar.timegm(st)
 
 
+class GuardedSha1:
+    """hashlib.sha1 for text that contains rendered numbers: each rendered number is one atomic token here, so two of them written back
+    to back (no separator) would hide digit-level collisions ('1.5'+'12' == '1.51'+'2').  That shape is reported, not guessed."""
+
+    def __init__(self, data=b""):
+        import hashlib
+        self._h = hashlib.sha1()
+        self._last = None
+        self.update(data)
+
+    def update(self, data):
+        e = Engine.cur
+        text = bytes(data).decode("latin-1")
+        if e is not None and text:
+            seq = ([self._last] if self._last is not None else []) + list(text)
+            for a, b in zip(seq, seq[1:]):
+                if e.is_token_char(a) and e.is_token_char(b) and a != b:
+                    raise e._raise(Unsupported("two rendered numbers hashed back to back without a separator (digit-level collisions are not modelled)"))
+            self._last = text[-1]
+        self._h.update(data)
+
+    def hexdigest(self):
+        return self._h.hexdigest()
+
+    def digest(self):
+        return self._h.digest()
+
+
 def make_shims(osh: OsShim) -> Shims:
     s = Shims()
+    s.add(R, sha1=GuardedSha1)
     s.add(SF, os=osh, parsedate_to_datetime=parsedate_stub, int=int_seconds, parsedate=parsedate_tuple_stub, time=TimeStub(), timegm=timegm_stub)
     s.add(R, formatdate=formatdate_stub)
     return s
